@@ -7,29 +7,14 @@ package c16
 import (
 	"fmt"
 
-	"github.com/ontio/ontology-crypto/keypair"
 	"github.com/ontio/ontology/core/types"
+
+	"verif/harness/hx"
 )
 
 // SortedKeys orders keys as ProgramFromMultiPubKey does, so that the index in the returned
 // slice is the key's position in the canonical script (= in the parsed key list).
-func SortedKeys(ks []*Key) []*Key {
-	pubs := keypair.SortPublicKeys(pubsOf(append([]*Key{}, ks...)))
-	out := make([]*Key, 0, len(ks))
-	for _, p := range pubs {
-		ser := keypair.SerializePublicKey(p)
-		for _, k := range ks {
-			if string(k.Ser) == string(ser) && k.Ty == uint64(keypair.GetKeyType(p)) {
-				out = append(out, k)
-				break
-			}
-		}
-	}
-	if len(out) != len(ks) {
-		panic("SortedKeys: lost a key")
-	}
-	return out
-}
+func SortedKeys(ks []*Key) []*Key { return SpecSorted(ks) }
 
 // DupSet is one (n, m) key set with a fixed signed content; Sigs[p] and Alt[p] are two different
 // valid signatures of the key at position p.
@@ -94,10 +79,10 @@ func (d *Drv) RunDup(sets []*DupSet) {
 		for p := 0; p < n; p++ {
 			if ds.M == 2 {
 				// the same signature twice, adjacent
-				d.DoTx(Input{Kind: fmt.Sprintf("dup:2-of-%d:same-signature-twice", n), Expect: "reject", Pos: p},
+				d.DoTx(Input{Kind: fmt.Sprintf("dup:2-of-%d:same-signature-twice", n), Expect: "reject", Pos: p, Valid: hx.Hex(ds.raw(honest))},
 					ds.raw([][]byte{ds.Sigs[p], ds.Sigs[p]}), ds.Keys)
 				// two different valid signatures of one signer
-				d.DoTx(Input{Kind: fmt.Sprintf("dup:2-of-%d:one-signer-two-signatures", n), Expect: "reject", Pos: p},
+				d.DoTx(Input{Kind: fmt.Sprintf("dup:2-of-%d:one-signer-two-signatures", n), Expect: "reject", Pos: p, Valid: hx.Hex(ds.raw(honest))},
 					ds.raw([][]byte{ds.Sigs[p], ds.Alt[p]}), ds.Keys)
 			} else {
 				// n-of-n: everyone signs, but the slot of another key carries position p's signature again
@@ -107,7 +92,7 @@ func (d *Drv) RunDup(sets []*DupSet) {
 				}
 				sigs := append([][]byte{}, ds.Sigs...)
 				sigs[q] = ds.Sigs[p]
-				d.DoTx(Input{Kind: fmt.Sprintf("dup:%d-of-%d:separated-duplicate", n, n), Expect: "reject", Pos: p}, ds.raw(sigs), ds.Keys)
+				d.DoTx(Input{Kind: fmt.Sprintf("dup:%d-of-%d:separated-duplicate", n, n), Expect: "reject", Pos: p, Valid: hx.Hex(ds.raw(honest))}, ds.raw(sigs), ds.Keys)
 			}
 		}
 	}
